@@ -26,6 +26,8 @@ Get(dims, data, idx) == IF InRange(dims, idx) THEN [panic |-> FALSE, v |-> data[
 
 \* tensors of the same rank are equal iff both shape and elements agree
 Eq(dims1, data1, dims2, data2) == dims1 = dims2 /\ data1 = data2
+\* the != operator is the negation (checked in the replay as `tensor.ne`)
+Ne(dims1, data1, dims2, data2) == ~Eq(dims1, data1, dims2, data2)
 
 RECURSIVE AllIdx(_, _)
 \* all multi-indices with idx[i] in 0 .. bound[i]-1, for i >= k
